@@ -294,7 +294,8 @@ def gen_composite(draw, name, opts, types_by_name, depth=0, required=None):
         elif k == "composite":
             el = gen_composite(draw, en, opts, types_by_name, depth + 1)
         else:
-            tgt = draw(st.sampled_from(refable))
+            consts_ = [n2 for n2 in refable if types_by_name[n2]["kind"] == "type" and types_by_name[n2]["presence"] == "constant"]
+            tgt = draw(st.sampled_from(consts_)) if (consts_ and draw(st.integers(0, 3)) == 0) else draw(st.sampled_from(refable))
             tname = types_by_name[tgt]["name"]
             if draw(st.integers(0, 4)) == 0:
                 tname = tname.swapcase()  # lookup is case-insensitive
